@@ -36,11 +36,14 @@ fn gcase_strategy(p: GenParams, lr: bool) -> BoxedStrategy<GCase> {
 
 /// as `gcase_strategy`, decorated with lookahead variants of a terminal text (same text and kind,
 /// other lookahead expression: different terminals) and AST-control attributes on occurrences
-fn gcase_strategy_deco(p: GenParams) -> BoxedStrategy<GCase> {
+fn gcase_strategy_deco(p: GenParams, lr: bool) -> BoxedStrategy<GCase> {
     (tape(30..120), tape(30..90), tape(30..60))
         .prop_map(move |(gt, tp, dt)| {
             let mut t = chart::Tape { data: &gt, pos: 0 };
             let mut grammar = gens::grammar(&mut t, &p);
+            if lr {
+                grammar.gtype = Some(GType::LALR);
+            }
             let mut d = chart::Tape { data: &dt, pos: 0 };
             gens::lookahead_variants(&mut grammar, &mut d);
             if d.next(2) == 1 {
@@ -213,7 +216,7 @@ impl Check for C10 {
         q.max_alts = 3;
         let mut r = p.clone();
         r.left_rec = true;
-        proptest::strategy::Union::new(vec![gcase_strategy(p.clone(), false), gcase_strategy(q, false), gcase_strategy(r, false), gcase_strategy_deco(p)]).boxed()
+        proptest::strategy::Union::new(vec![gcase_strategy(p.clone(), false), gcase_strategy(q, false), gcase_strategy(r, false), gcase_strategy_deco(p, false)]).boxed()
     }
     fn cases(&self, tier: Tier) -> u32 {
         tier.pick(80000, 1000000)
@@ -423,7 +426,7 @@ impl Check for C12 {
         p.max_nt = tier.pick(4, 6);
         let mut q = p.clone();
         q.ebnf = false;
-        proptest::strategy::Union::new(vec![gcase_strategy(p, true), gcase_strategy(q, true)]).boxed()
+        proptest::strategy::Union::new(vec![gcase_strategy(p.clone(), true), gcase_strategy(q, true), gcase_strategy_deco(p, true)]).boxed()
     }
     fn cases(&self, tier: Tier) -> u32 {
         tier.pick(48000, 600000)
